@@ -14,7 +14,8 @@
 (*     ph "exec" -> "int" -> "check" -> ("exec" | "done" -> "reported")     *)
 (*     r, mem, hw, ops (instructions executed), t0 (clock at the start),    *)
 (*     reason ("" | "ops" | "tstates" | "addr"), last (the instruction just *)
-(*     executed), ok (inside the modelled domain), map (--map), nint        *)
+(*     executed), ok (inside the modelled domain), map (--map), nint /      *)
+(*     nhalt / npage (interrupts accepted, HALT repeats, paging changes)    *)
 (*                                                                         *)
 (* Actions (one instruction boundary = StepAction ; AcceptInterrupt or      *)
 (* NoInterrupt ; one of StopByOperations / StopByTstates / StopByAddress /  *)
@@ -130,7 +131,7 @@ InDomain(j, x) == ~(j.realrom /\ x.r[rPC] < 16384) /\ ~Aliased(x.mem)
 -----------------------------------------------------------------------------
 (* The run loop *)
 M0(j) == [ph |-> "exec", r |-> j.r0, mem |-> j.mem0, hw |-> j.hw0, ops |-> 0, t0 |-> j.r0[rT], reason |-> "",
-          last |-> [pc |-> 0, op |-> 0, t |-> 0], ok |-> TRUE, mask |-> 255, map |-> {}, nint |-> 0]
+          last |-> [pc |-> 0, op |-> 0, t |-> 0], ok |-> TRUE, mask |-> 255, map |-> {}, nint |-> 0, nhalt |-> 0, npage |-> 0]
 
 InitWith(j) == job = j /\ m = M0(j)
 
@@ -143,7 +144,8 @@ StepAction ==
          pc == m.r[rPC]
      IN m' = [m EXCEPT !.ph = "int", !.r = st.r, !.mem = h.mem, !.hw = h.hw, !.ops = @ + 1,
                        !.last = [pc |-> pc, op |-> Peek(m.mem, pc), t |-> m.r[rT]],
-                       !.ok = @ /\ InDomain(job, m), !.mask = st.mask, !.map = @ \cup {pc}]
+                       !.ok = @ /\ InDomain(job, m), !.mask = st.mask, !.map = @ \cup {pc},
+                       !.nhalt = @ + st.r[rHALT], !.npage = @ + (IF h.mem.p7 # m.mem.p7 THEN 1 ELSE 0)]
   /\ UNCHANGED job
 
 \* "interrupt routines are executed by default" (9.0), "-n, --no-interrupts  Don't execute interrupt routines":
